@@ -530,7 +530,9 @@ impl<R: Read + io::Seek> ZipArchive<R> {
 
     /// Search for a file entry by name
     pub fn by_name<'a>(&'a mut self, name: &str) -> ZipResult<ZipFile<'a>> {
-        Ok(self.by_name_with_optional_password(name, None)?.unwrap())
+        // An entry can carry AES information without the encryption flag; that is not a panic.
+        self.by_name_with_optional_password(name, None)?
+            .map_err(|_| ZipError::UnsupportedArchive(ZipError::PASSWORD_REQUIRED))
     }
 
     fn by_name_with_optional_password<'a>(
@@ -570,9 +572,8 @@ impl<R: Read + io::Seek> ZipArchive<R> {
 
     /// Get a contained file by index
     pub fn by_index(&mut self, file_number: usize) -> ZipResult<ZipFile<'_>> {
-        Ok(self
-            .by_index_with_optional_password(file_number, None)?
-            .unwrap())
+        self.by_index_with_optional_password(file_number, None)?
+            .map_err(|_| ZipError::UnsupportedArchive(ZipError::PASSWORD_REQUIRED))
     }
 
     /// Get a contained file by index without decompressing it
